@@ -332,7 +332,10 @@ def execute(plan, scratch):
             before = dict(PROBE)
             exc = net = None
             try:
-                net = Network.fromFile(xodr, useCache=op["useCache"], writeCache=op["writeCache"], **opts)
+                # (every third operation names the map without its extension: the documented search
+                # order then finds the original map before its cache)
+                where = xodr.with_suffix("") if i % 3 == 2 else xodr
+                net = Network.fromFile(where, useCache=op["useCache"], writeCache=op["writeCache"], **opts)
             except Exception as e:  # noqa: BLE001 - classified below
                 exc = e
             called, hit = PROBE["calls"] > before["calls"], PROBE["hits"] > before["hits"]
